@@ -294,14 +294,15 @@ static void runScene(const Scene &s, double ox, double oy, std::vector<std::vect
     if (!thrown) delete router;
 }
 
-static int frameMode(const char *inFile, const char *outFile, uint64_t seed)
+static int frameMode(const char *inFile, const char *outFile, uint64_t seed, long skip)
 {
     std::ifstream in(inFile);
     vt::Out out(outFile);
     out.line(std::string("{\"chunk\":10,\"recs\":["));
-    vt::Rng rng(seed);
-    Scene s; bool first = true;
+    Scene s; bool first = true; long idx = 0;
     while (readScene(in, s)) {
+        if (idx++ < skip) continue;
+        vt::Rng rng(seed + 7919ULL * (uint64_t)idx);       // per scene, so that a restart after a dead process reproduces the same run
         std::vector<std::vector<Point> > rawA, dispA, rawB, dispB, rawT, dispT, rawS, dispS;
         bool tA, tB, tT, tS;
         runScene(s, 0, 0, rawA, dispA, tA);
@@ -333,7 +334,7 @@ static int frameMode(const char *inFile, const char *outFile, uint64_t seed)
         j.k("sym").arr();
         for (int t = 1; t < 8; t++) { Scene o; sceneTransform(s, t, o); runScene(o, 0, 0, rawS, dispS, tS); j.obj().k("t").i(t).k("thrown").b(tS); latRoutes("lat", rawS); j.end(); }
         j.end().end();
-        out.line((first ? "" : ",") + j.out); first = false;
+        out.line((first ? "" : ",") + j.out); first = false; out.flush();
     }
     out.line(std::string("]}"));
     return 0;
@@ -362,7 +363,7 @@ int main(int argc, char **argv)
 {
     if (argc >= 3 && std::string(argv[1]) == "bends") return bendsMode(argv[2]);
     if (argc >= 4 && std::string(argv[1]) == "hist") return histMode(argv[2], argv[3]);
-    if (argc >= 5 && std::string(argv[1]) == "frame") return frameMode(argv[2], argv[3], strtoull(argv[4], 0, 10));
+    if (argc >= 5 && std::string(argv[1]) == "frame") return frameMode(argv[2], argv[3], strtoull(argv[4], 0, 10), argc > 5 ? atol(argv[5]) : 0);
     if (argc >= 4 && std::string(argv[1]) == "scenes") return scenesMode(argv[2], argv[3], argc > 4 ? argv[4] : "20", argc > 5 ? atol(argv[5]) : 0);
     return 2;
 }
